@@ -85,6 +85,22 @@ def keep(src, name, pid, tier='quick'):
 if __name__ == '__main__':
     if sys.argv[1] == 'keep':
         keep(*sys.argv[2:])
+    elif sys.argv[1] == 'mark':
+        # mark <seeded dir> <check> [tier] [seed]: re-run and, when the check reports it, record the detection in meta.json
+        d, pid = sys.argv[2], sys.argv[3]
+        wt = make_wt('run')
+        try:
+            ok, how = apply_patch(wt, os.path.abspath(d) + '/patch.diff')
+            det = run_check(wt, pid, *sys.argv[4:]) if ok else {}
+        finally:
+            drop_wt(wt)
+        if det.get('rc') == 1:
+            m = json.load(open(d + '/meta.json'))
+            if m.pop('not_detected', None):
+                m['was_not_detected_when_kept'] = True
+            m['detected_by'] = det
+            json.dump(m, open(d + '/meta.json', 'w'), indent=1)
+        print(d, det.get('rc'), how, det.get('lines', [])[:2])
     else:
         d, pid = sys.argv[2], sys.argv[3]
         wt = make_wt('run')
